@@ -871,22 +871,31 @@ func TestVerif_C14(t *testing.T) {
 			}
 			// (if no statement carrying the unwritable id was executed after it had become
 			// unwritable, it was either written before or never taken: any prefix is legal)
-			kmax := vi
-			if bitten == 0 {
-				kmax = len(batch)
-			}
+			// How the writer cuts the acknowledged events into batches is its own business (in
+			// offered order, by kind, one by one ...): every batch is written as a whole or not
+			// at all, and the one holding the unwritable event is not written. So the legal
+			// states are "before" plus any subset of the buffered events without the unwritable one.
 			legal, why := false, ""
-			for k := 0; k <= kmax && !legal; k++ {
+			for mask := 0; mask < 1<<len(batch) && !legal; mask++ {
+				if bitten > 0 && mask&(1<<vi) != 0 {
+					continue
+				}
+				var sub []*mocrelay.Event
+				for k, e := range batch {
+					if mask&(1<<k) != 0 {
+						sub = append(sub, e)
+					}
+				}
 				m := before.Clone()
-				m.InsertBatch(batch[:k])
+				m.InsertBatch(sub)
 				v := vk.CheckQuery(m.Live(), fs, ans)
 				legal = v.OK
-				if k == 0 {
+				if mask == 0 {
 					why = v.Why
 				}
 			}
 			if !legal {
-				rep.Violation("shutdown-flush/partial-batch", fmt.Sprintf("%d events were buffered when the handler stopped and number %d of them could not be written (%d statement executions failed): afterwards the database answers neither as before (%s) nor as before plus the first k <= %d events", len(batch), vi, bitten, why, kmax),
+				rep.Violation("shutdown-flush/partial-batch", fmt.Sprintf("%d events were buffered when the handler stopped and number %d of them could not be written (%d statement executions failed): afterwards the database answers neither as before (%s) nor as before plus any set of the other buffered events", len(batch), vi, bitten, why),
 					map[string]any{"stored_before": shortEvs(pre), "buffered_batch": shortEvs(batch), "unwritable": victim.ID, "answer": shortEvs(ans)})
 				return
 			}
